@@ -192,6 +192,9 @@ func vf5Case(line string) (res string) {
 	case "fsm":
 		r.mock = &vf5Mock{cls: "g"}
 		r.f = NewFSM(ProtoLCP, r.callbacks(), r.mock)
+	case "ncp":
+		r.mock = &vf5Mock{cls: "g"}
+		r.f = NewFSM(ProtoIPCP, r.callbacks(), r.mock)
 	case "lcp":
 		l := NewLCP(r.callbacks())
 		l.SetMagic(0x01020304)
